@@ -340,6 +340,10 @@ func ExecConformance(c *Check, prop string, bins map[string]string, vs []Variant
 	// 2. derive plans
 	var templ []*Scenario
 	for _, b := range base {
+		if b.Result == nil && strings.Contains(b.Stderr, "DATA RACE") {
+			c.Violate("data-race", "race detector report executing fault-free "+b.Query+"\n"+trunc(b.Stderr, 3000), b)
+			continue
+		}
 		if b.Result == nil {
 			c.Violate("crash-baseline", "probe crashed on fault-free operation: "+b.Query+"\n"+tail(b.Stderr, 1500), b)
 			continue
@@ -535,6 +539,37 @@ func replayOne(c *Check, prop string, bins map[string]string, vs []Variant, sche
 			c.Violate(key, rj.Describe(), rj.Scenario)
 		}
 	}
+}
+
+// MergeCorpus: hand-written operations in which one response key is selected several times
+// with different sub-selections through type-conditioned fragments, in lists of mixed
+// concrete types - the situations in which sharing (instead of copying) selection slices
+// or field sets between list elements shows up. Each comes ungated (plans are derived) and
+// gated (the elements collect their fields before any of them resolves the merged key).
+func MergeCorpus(prefix string) []*Scenario {
+	mixed := map[string]ur.Outcome{
+		"nodes": {K: "list", N: 3}, "nodes.0": {K: "obj", Ty: "A"}, "nodes.1": {K: "obj", Ty: "B"}, "nodes.2": {K: "obj", Ty: "A"},
+		"us": {K: "list", N: 2}, "us.0": {K: "obj", Ty: "B"}, "us.1": {K: "obj", Ty: "A"},
+	}
+	qs := []string{
+		`{ nodes { peer { id name __typename } ... on A { peer { ... on A { s } ... on B { bs } } } ... on B { peer { ... on B { bsn } ... on A { sn } } } } }`,
+		`{ nodes { id peer { id name __typename ... on Named { tag } id2: id } ... on Named { peer { n2: name } } ... on B { peer { bonly: __typename } } ... on A { peer { ... on Node { x: id } } } } }`,
+		`{ us { ... on Node { peer { id name tag: __typename } } ... on A { peer { ... on A { kid { id } } } } ... on B { peer { ... on B { a { id } } } } } nodes { peer { id } peer { name } } }`,
+		`{ as { kid { id name tag plainn num } kid { s } ... on A { kid { sn } } } asn { kids { id name tag } ... on A { kids { s } } kids { sn } } }`,
+	}
+	var out []*Scenario
+	for i, q := range qs {
+		base := CorpusScenario(fmt.Sprintf("%s-merge%d", prefix, i), q, nil)
+		base.Plan = mixed
+		out = append(out, base)
+		for _, sch := range []string{"lifo", "fifo"} {
+			g := CorpusScenario(fmt.Sprintf("%s-merge%d-%s", prefix, i, sch), q, nil)
+			g.Plan = mixed
+			g.Sched = sch
+			out = append(out, g)
+		}
+	}
+	return out
 }
 
 // faultSuffix names the fault kinds of a plan that known findings are keyed by.
